@@ -39,6 +39,7 @@ M2_PROPS = {"C01", "C13", "C14", "C18", "C19", "C20"}
 # properties that are also judged (by their trace predicate alone) on programs whose user functions call Invoke
 # from inside their bodies; every fifth generated program is of that kind
 R_PROPS = {"C02", "C05"}
+U_PROPS = {"C14", "C05"}      # a twelfth of their programs use inputs outside the model (gen.generate_valerr), judged by the predicates
 N_M2 = {"quick": (1, 300), "thorough": (10, 400)}
 
 
@@ -218,6 +219,13 @@ def proof_step(pid, tier):
 def explore_one(pid, pair, prog, do_twins, rnd):
     """returns (failures, stats) for one program.  failure = dict(kind, descr, program)"""
     fails = []
+    if prog.get("unmodelled"):
+        # inputs the model does not describe (a result of a value-typed error): the implementation's trace is judged alone
+        it = pair.impl.ask(json.dumps(prog, separators=(",", ":")))
+        bad = props.PRED[pid](prog, it)
+        if bad:
+            fails.append({"kind": "predicate", "descr": "%s: %s" % (prog["unmodelled"], bad[0]), "program": prog})
+        return fails, {"nontrivial": True, "mt": {"ops": []}, "it": it, "unmodelled": True}
     if prog.get("reentrant"):
         # user functions that call back into the container: outside the model; the implementation's trace is judged alone
         it = pair.impl.ask(json.dumps(prog, separators=(",", ":")))
@@ -243,9 +251,9 @@ def explore_one(pid, pair, prog, do_twins, rnd):
         fails.append({"kind": "correspondence", "op": k,
                       "descr": "%s: model and implementation differ on the %s projection at op %s" % (props.CORRESPONDENCE[pid], pid, k),
                       "program": prog})
-    ntext = 0
+    ntext = nsame = 0
     if pid == "C19" and not fails:
-        bad, ntext = k_dottext(pair, prog, it)
+        bad, ntext, nsame = k_dottext(pair, prog, it)
         if bad:
             fails.append({"kind": "correspondence", "descr": "K-dottext: " + bad, "program": prog})
     if do_twins and not fails:
@@ -259,32 +267,53 @@ def explore_one(pid, pair, prog, do_twins, rnd):
             tb, tp = props.twin_c17(prog, run)
         if tb:
             fails.append({"kind": "twin", "descr": tb[0], "program": prog})
-    return fails, {"nontrivial": props.nontrivial(pid, prog, it), "mt": mt, "it": it, "dottext": ntext}
+    return fails, {"nontrivial": props.nontrivial(pid, prog, it), "mt": mt, "it": it, "dottext": ntext, "dottext_same": nsame}
+
+
+def _canon_ast(ast):
+    """statements in any order (independent statements may be written in another order), subgraph bodies likewise"""
+    if not isinstance(ast, list):
+        return ast
+    out = []
+    for st in ast:
+        if isinstance(st, dict) and "body" in st:
+            st = dict(st, body=_canon_ast(st["body"]))
+        out.append(json.dumps(st, sort_keys=True, separators=(",", ":")))
+    return sorted(out)
 
 
 def k_dottext(pair, prog, it):
-    """the model writes the text of its own picture with the names the executor reports; byte for byte the library's text"""
+    """the model writes the text of its own picture with the names the executor reports; both texts are read by the DOT
+    lexer and parser of the model and must be the same statements (white space and the order of statements are free);
+    returns (problem or None, number of texts compared, number of those that were identical byte for byte)"""
     ops = it.get("ops", [])
     viz = [i for i, o in enumerate(ops) if isinstance(o, dict) and o.get("dotText") is not None and o.get("dotNames") and o.get("v") == "ok"]
     if not viz:
-        return None, 0
-    n = 0
+        return None, 0, 0
+    n = same = 0
     names = {"types": ops[viz[0]]["dotNames"]["types"], "ctorsAt": {str(i): ops[i]["dotNames"]["ctors"] for i in viz}}
     mt = pair.model.ask(json.dumps(dict(prog, dotNames=names), separators=(",", ":")))
+    ask = lambda text: pair.model.ask(json.dumps({"kind": "dotparse", "text": text}, separators=(",", ":")))   # noqa: E731
     for i in viz:
         want = ops[i]["dotText"]
         mo = mt.get("ops", [])
         got = mo[i].get("dotText") if i < len(mo) and isinstance(mo[i], dict) else None
-        ps = pair.model.ask(json.dumps({"kind": "dotparse", "text": want}, separators=(",", ":")))
+        ps = ask(want)
         if not (ps.get("lex") and ps.get("parse")):
-            return "op %d: the text the library wrote is not accepted by the DOT lexer/parser of the model (lex=%s parse=%s)" % (i, ps.get("lex"), ps.get("parse")), n
+            return "op %d: the text the library wrote is not accepted by the DOT lexer/parser of the model (lex=%s parse=%s)" % (i, ps.get("lex"), ps.get("parse")), n, same
         if got is None:
             continue          # the model draws no picture here (its verdict differs: reported by the projection)
         n += 1
-        if got != want:
-            k = next((j for j, (a, b) in enumerate(zip(got, want)) if a != b), min(len(got), len(want)))
-            return "op %d: the model's text and the library's differ at byte %d: model %r / library %r" % (i, k, got[max(0, k - 40):k + 40], want[max(0, k - 40):k + 40]), n
-    return None, n
+        if got == want:
+            same += 1
+            continue
+        pm = ask(got)
+        if _canon_ast(pm.get("ast")) != _canon_ast(ps.get("ast")):
+            a, b = _canon_ast(pm.get("ast")) or [], _canon_ast(ps.get("ast")) or []
+            only_m = [x for x in a if x not in b][:2]
+            only_l = [x for x in b if x not in a][:2]
+            return "op %d: the model's text and the library's are different DOT documents: only in the model %s / only in the library %s" % (i, only_m, only_l), n, same
+    return None, n, same
 
 
 def worker(args):
@@ -300,7 +329,9 @@ def worker(args):
         w = w_own if k < n_own else w_mixed
         if k >= n_own:
             dist["mixed-profile-programs"] = dist.get("mixed-profile-programs", 0) + 1
-        if pid in R_PROPS and k % 5 == 4:
+        if pid in U_PROPS and k % 12 == 11:
+            prog = gen.generate_valerr(seed, w)
+        elif pid in R_PROPS and k % 5 == 4:
             prog = gen.generate_reentrant(seed, w)
         else:
             prog = gen.generate(seed, w)
@@ -312,7 +343,10 @@ def worker(args):
         if st.get("skipped"):
             skipped += 1
         if st.get("dottext"):
-            dist["dottext:texts-compared-byte-for-byte"] = dist.get("dottext:texts-compared-byte-for-byte", 0) + st["dottext"]
+            dist["dottext:texts-compared-as-documents"] = dist.get("dottext:texts-compared-as-documents", 0) + st["dottext"]
+            dist["dottext:identical-byte-for-byte"] = dist.get("dottext:identical-byte-for-byte", 0) + st.get("dottext_same", 0)
+        if st.get("unmodelled"):
+            dist["unmodelled-programs(value-typed-error-results)"] = dist.get("unmodelled-programs(value-typed-error-results)", 0) + 1
         if st.get("reentrant"):
             dist["reentrant-programs"] = dist.get("reentrant-programs", 0) + 1
             if st.get("nontrivial"):
